@@ -14,7 +14,8 @@ Definition disjoint (a b : pfmap) : Prop := end_pfn a <= start_pfn b \/ end_pfn 
 (** A well-formed split set (DESIGN section 8, reading (iii)): windows are
     non-empty and pairwise disjoint. *)
 Definition wf_set (files : list pfmap) : Prop :=
-  Forall (fun m => start_pfn m < end_pfn m) files /\ ForallOrdPairs disjoint files.
+  (forall m, In m files -> start_pfn m < end_pfn m) /\
+  (forall a b, In a files -> In b files -> a = b \/ disjoint a b).
 
 (** executable version, for the correspondence run *)
 Fixpoint wf_setb (files : list pfmap) : bool :=
